@@ -602,6 +602,7 @@ NUMERIC_LIMITS = {
     ('real', 'infinity'): 'VERIF_INF', ('double', 'infinity'): 'VERIF_INF',
     ('int', 'max'): 'INT_MAX', ('int', 'min'): 'INT_MIN', ('int', 'digits'): '31',
     ('long long', 'digits'): '63', ('unsigned', 'digits'): '32',
+    ('real', 'radix'): 'FLT_RADIX', ('double', 'radix'): 'FLT_RADIX', ('float', 'radix'): 'FLT_RADIX',
     ('real', 'has_quiet_NaN'): '1', ('real', 'has_infinity'): '1',
     ('double', 'has_quiet_NaN'): '1', ('double', 'has_infinity'): '1',
     ('float', 'has_quiet_NaN'): '1', ('float', 'has_infinity'): '1',
@@ -841,7 +842,9 @@ class Translator:
             args = split_top(body[m.end():pc])
             if len(args) != 3:
                 raise ExtractError('std::fill with %d arguments' % len(args))
-            body = body[:m.start()] + 'VERIF_FILL(%s, %s, %s)' % tuple(' '.join(a.split()) for a in args) + body[pc + 1:]
+            a0, a1, a2 = (' '.join(a.split()) for a in args)
+            # the first argument may be an array (a data member): take the address of its first element so that the macro's iterator is a pointer
+            body = body[:m.start()] + 'VERIF_FILL(&(%s)[0], %s, %s)' % (a0, a1, a2) + body[pc + 1:]
             self.report.hit('R10.array_fill')
         return body
 
@@ -953,6 +956,9 @@ class Translator:
 
     # ---- R9, R20
     def rule_statics(self, body):
+        # a local integral constant initialised by a literal stays a compile-time constant in C (it may size an array)
+        body, n0 = re.subn(r'\bstatic\s+const\s+(?:int|unsigned)\s+(\w+)\s*=\s*(\d+)\s*;', r'enum { \1 = \2 };', body)
+        self.report.hit('R9.static_const_int_literal', n0)
         body, n = re.subn(r'\bstatic\s+const\b', 'const', body)
         self.report.hit('R9.static_const_local', n)
         body, n = re.subn(r'\bGEOGRAPHICLIB_VOLATILE\b', 'volatile', body)
